@@ -21,17 +21,23 @@ func init() {
 		NonTrivial: func(o *Outcome) bool {
 			return o.Hist.Probes["hits-checked"] > 0 && (o.Hist.Probes["reloads"] > 0 || o.Hist.Probes["purges"] > 0)
 		},
-		Rule:         "seeded mixed traffic on hot and cold keys with lifetimes of 1-2s: GET / HEAD / POST with varying Accept-Encoding and conditional headers, named purges and repeated reloads of behaviourally equivalent configurations (toggling added response headers of an unused location, compress levels, an extra cache), bursts of 3-8 concurrent requests; the same schedules are executed (a) by the normal build with the response-integrity, served-or-explained and immutability oracles armed and (b) by a -race build in which the scheduler's own synchronisation is hidden from the detector (RaceDisable around harness hand-offs, one-directional controller->task edges), so that two accesses by different tasks which pike itself does not order are reported although execution is serialised; a race report counts only if the innermost non-runtime frames of both accesses lie outside the harness. non-trivial = at least one cache hit was checked and a reload or purge ran; distinct = distinct history hash",
+		Rule:         "seeded mixed traffic on hot and cold keys with lifetimes of 1-2s: GET / HEAD / POST with varying Accept-Encoding and conditional headers, named purges and repeated reloads of behaviourally equivalent configurations (toggling added response headers of an unused location, compress levels, an extra cache), bursts of 3-8 concurrent requests, the cache persisted in a quarter of the plans; the same schedules are executed (a) by the normal build with the response-integrity, served-or-explained and immutability oracles armed and (b) by a -race build in which the scheduler's own synchronisation is hidden from the detector (RaceDisable around harness hand-offs, one-directional controller->task edges), so that two accesses by different tasks which pike itself does not order are reported although execution is serialised; a race report counts only if the innermost non-runtime frames of both accesses lie outside the harness. non-trivial = at least one cache hit was checked and a reload or purge ran; distinct = distinct history hash",
 		ExpectProbes: []string{"hits-checked", "reloads", "purges", "same-entry-served-twice", "path:waiter", "request-during-reload"},
 	})
 }
 
 func genC20(g *Gen) *Plan {
 	p := &Plan{Profile: "C20", Seed: g.Seed, Policy: g.policy(), ClockMenuMs: []int{200, 500, 1000}, ClockWeight: pick(g, 0.0, 0.05, 0.1), MaxSteps: 5000}
+	// a quarter of the plans persist the cache: purges then race requests that can bring the
+	// entry back from the store
+	store := ""
+	if g.p(0.25) {
+		store = storeURL
+	}
 	mk := func(variant int) Config {
 		c := Config{
 			Compresses: []CompressCfg{{Name: "cp", Levels: map[string]uint{"gzip": uint(1 + variant%3*3), "br": uint(1 + variant%2*4)}}},
-			Caches:     []CacheCfg{{Name: "c1", Size: pick(g, 1000, 1000, 16), HitForPass: "1s"}},
+			Caches:     []CacheCfg{{Name: "c1", Size: pick(g, 1000, 1000, 16), HitForPass: "1s", Store: store}},
 			Upstreams:  []UpstreamCfg{{Name: "u1", Policy: "first", Servers: []UpstreamSrv{{Addr: "http://" + originA}}}},
 			Locations:  []LocationCfg{{Name: "l1", Upstream: "u1", RespHeaders: []string{"X-Loc:l1"}}, {Name: "lx", Upstream: "u1", Prefixes: []string{"/unused"}}},
 			Servers:    []ServerCfg{{Addr: srvAddr, Locations: []string{"l1", "lx"}, Cache: "c1", Compress: "cp", CompressMinLength: "100"}},
